@@ -40,6 +40,7 @@ func C17(ctx *Ctx) {
 	// ---- pack: c -> rgb -> c
 	{
 		ip := absint.New()
+		ip.UnrollLoops = true
 		ca := ip.In.Atom("c", 16, 0xFFFF)
 		c := absint.NewSym(16, ca, false)
 		rgb, out := ip.Call(toRGB, []absint.Val{c}, nil, newState())
@@ -75,6 +76,7 @@ func C17(ctx *Ctx) {
 	// ---- pack: rgb -> c -> rgb
 	{
 		ip := absint.New()
+		ip.UnrollLoops = true
 		var atoms []*absint.Atom
 		var args []absint.Val
 		for _, n := range []string{"r", "g", "b"} {
@@ -121,6 +123,7 @@ func C17(ctx *Ctx) {
 	// ---- MulDiv / Luminosity with independent channel symbols
 	for _, fn := range []*ssa.Function{mulDiv, lum} {
 		ip := absint.New()
+		ip.UnrollLoops = true
 		ip.TraceArith = true
 		pos := ctx.Prog.Pos(fn.Pos())
 		chans := map[string]*absint.Atom{}
